@@ -81,7 +81,9 @@ class RoutineDict(TypedDict):
     target_id: NotRequired[str]
 
 
-def parse_pos_mark_arg(arg_str: str) -> tuple[int, int]:
+def parse_pos_mark_arg(arg_str: str | int) -> tuple[int, int]:
+    # The coordinates may also be encoded as integers.
+    arg_str = str(arg_str)
     arg_str_arr = arg_str.split(".")
     if len(arg_str_arr) < 2:
         return exps_int(arg_str), 0
